@@ -56,13 +56,13 @@ func genC18(tier string, seed int64) []Case {
 	add(c18Desc{Order: "nosnapshot", HookMs: 300})
 	step := 10
 	if tier == "thorough" {
-		step = 2
+		step = 1
 	}
 	for dl := -30; dl <= 30; dl += step {
 		add(c18Desc{Order: "sweep", HookMs: 200, Delta: dl})
 	}
 	if tier == "thorough" {
-		for rep := 0; rep < 5; rep++ {
+		for rep := 0; rep < 20; rep++ {
 			for dl := -8; dl <= 8; dl += 2 {
 				add(c18Desc{Order: "sweep", HookMs: int64(150 + rep), Delta: dl})
 			}
